@@ -11,6 +11,7 @@ signed.  Any exception counts as rejection.
 """
 from __future__ import annotations
 
+import copy
 import json
 
 from ..core import RunResult, Trace, Rng
@@ -307,6 +308,27 @@ def run(rng: Rng, tier: str, index: int) -> RunResult:
                                                      private=wt.kty == "oct")))
     for kind, c2 in alts:
         attack(kind, "verifier holds %s" % json.dumps(c2.describe()), A.ser, A.detached, use_conf=c2)
+
+    # ---- a second legitimate signer re-labels the payload (RFC 7797 section 3: "b64" MUST be the same for all signatures) ----
+    if isinstance(A.ser, dict) and isinstance(A.ser.get("signatures"), list) and isinstance(A.ser.get("payload"), str):
+        for j, k in enumerate(rkeys):
+            if k.priv is None and k.kty != "oct":
+                continue
+            a_j = specs[j][2] if j < len(specs) else alg
+            prot = {"alg": a_j, "b64": False, "crit": ["b64"]}
+            if k.kid is not None:
+                prot["kid"] = k.kid
+            seg = b64.enc(rjws.compact_json(prot))
+            try:
+                sig = rjws.sign_raw(a_j, k, seg.encode("ascii") + b"." + A.ser["payload"].encode("utf-8"))
+            except Exception:
+                continue
+            for how in ("appended", "first"):
+                tok = copy.deepcopy(A.ser)
+                entry = {"protected": seg, "signature": b64.enc(sig)}
+                tok["signatures"] = tok["signatures"] + [entry] if how == "appended" else [entry] + tok["signatures"]
+                attack("mixed-b64", "entry by signer %d with b64=false over the payload text, %s" % (j, how), tok, A.detached, nondet=True)
+            break
 
     # ---- algorithm confusion: MAC keyed with the verifier's public key encodings ----
     if rkeys[0].kty != "oct" and form in ("compact", "flat"):
